@@ -490,12 +490,66 @@ def journal_case(root, part, rng):
         shutil.rmtree(wd, ignore_errors=True)
 
 
+def batch_case(root, part, rng):
+    """one request with two to four VTODOs (echsx takes "jobs from VTODO entries"): every one of them is run as specified"""
+    wd = tempfile.mkdtemp(prefix="c13b-")
+    try:
+        job = build.exe(root, "asan", "h_job")
+        n = rng.choice([2, 2, 3, 4])
+        jobs = []
+        for i in range(n):
+            jobs.append({"out": rng.choice([0, 7, 300, 70000]), "err": rng.choice([0, 5, 900]), "exit": rng.choice([0, 0, 1, 42]),
+                         "mail": rng.random() < 0.7, "ofile": rng.random() < 0.8})
+        vts = []
+        for i, j in enumerate(jobs):
+            l = ["BEGIN:VTODO", "UID:b%d@verif" % i, "SUMMARY:exec %s o:%d e:%d x:%d" % (job, j["out"], j["err"], j["exit"]),
+                 "X-ECHS-SETUID:0", "X-ECHS-SETGID:0", "X-ECHS-SHELL:/bin/sh", "LOCATION:" + wd,
+                 "X-ECHS-MAIL-OUT:%d" % j["mail"], "X-ECHS-MAIL-ERR:%d" % j["mail"]]
+            if j["ofile"]:
+                l.append("X-ECHS-OFILE:%s/o%d.txt" % (wd, i))
+            l += ["ORGANIZER:echse+verifhost", "ATTENDEE:joe@example.com", "END:VTODO"]
+            vts.append("\n".join(l))
+        req = "BEGIN:VCALENDAR\nVERSION:2.0\n" + "\n".join(vts) + "\nEND:VCALENDAR\n"
+        part.evaluations += 1
+        r = echsx.run_echsx(root, req, wd)
+        wit = {"input": req, "journal": r.journal[-3000:], "stderr": r.stderr[-600:], "shim_log": r.log[:30]}
+        if r.rc is None or "AddressSanitizer" in r.stderr or "runtime error" in r.stderr:
+            part.violation("batch/executor-crash", dict(wit, summary="echsx dies on a request with %d VTODOs: %s" % (n, r.stderr[-300:])))
+            return
+        entries = [e for e in r.journal.split("BEGIN:VTODO\n")[1:]]
+        fails = []
+        if len(entries) != n:
+            fails.append(("batch/journal-entries", "%d VTODOs in the request, %d journal entries" % (n, len(entries))))
+        for i, j in enumerate(jobs):
+            e = next((x for x in entries if ("UID:b%d@verif" % i) in x), None)
+            if e is None:
+                fails.append(("batch/job-not-reported", "job %d of %d has no journal entry" % (i + 1, n)))
+                continue
+            if not e.startswith("DTSTAMP:"):
+                fails.append(("batch/journal-malformed", "entry of job %d of %d begins with %r" % (i + 1, n, e.split("\n")[0][:40])))
+            if echsx.jfield("BEGIN:VTODO\n" + e, "X-EXIT-STATUS") != str(j["exit"]):
+                fails.append(("batch/journal-exit-status", "job %d of %d exits with %d, journal says %s" % (i + 1, n, j["exit"], echsx.jfield("BEGIN:VTODO\n" + e, "X-EXIT-STATUS"))))
+            if j["ofile"]:
+                fn = "%s/o%d.txt" % (wd, i)
+                got = open(fn, "rb").read() if os.path.exists(fn) else None
+                if got != stream("a", j["out"], 0):
+                    fails.append(("batch/ofile", "job %d of %d writes %d bytes to stdout, its OFILE holds %s" % (i + 1, n, j["out"], "nothing" if got is None else "%d bytes" % len(got))))
+        part.count("jobs_in_batches", n)
+        part.nontrivial.add("batch n=%d mail=%d ofile=%d" % (n, sum(j["mail"] for j in jobs) > 0, sum(j["ofile"] for j in jobs) > 0))
+        for k, d in fails:
+            part.violation(k, dict(wit, summary=d))
+    finally:
+        shutil.rmtree(wd, ignore_errors=True)
+
+
 def worker(args):
     root, seed, tier, wid, nw, n = args
     part = Part()
     rng = rng_for(seed, PROP, wid)
     for i in range(n):
-        if i % 8 == 3:
+        if i % 16 == 5:
+            batch_case(root, part, rng)
+        elif i % 8 == 3:
             journal_case(root, part, rng)
         elif i % 8 == 7:
             e2e_case(root, part, rng)
